@@ -31,6 +31,20 @@ namespace Upnp.C11
 open Upnp PyDict Upnp.C09 Upnp.C10
 variable [FloatOracle]
 
+/-- the driver's diagnostic walk is the judge: a trace is accepted iff no observation is reported -/
+theorem ok_iff_no_first_bad (decls : List (List Var)) (js : JS) (l : List Obs) (i : Nat) :
+    okFrom decls js l = (firstBadFrom decls js l i).isNone := by
+  induction l generalizing js i with
+  | nil => rfl
+  | cons o r ih =>
+    simp only [okFrom, firstBadFrom]
+    by_cases hs : evInScope js o.ev = true
+    · simp only [hs, if_true]
+      by_cases h : (outOk o && valsOk decls (advance js o.ev) o.vals && cbsOk decls (advance js o.ev) o.cbs) = true
+      · simp only [h, if_true, Bool.true_and]; exact ih _ _
+      · simp [h]
+    · simp [hs]
+
 /-- **Each early NOTIFY is answered 200**: whatever the handler's state (SID routed, not yet routed, never
     routed), a NOTIFY with valid headers is answered 200. -/
 theorem early_notify_200 (h : Handler) (n : Notify) (tick : Nat) (hk : hdrsOk n.hdrs = true)
